@@ -16,7 +16,7 @@ DURS: List[List[Any]] = [
 ]
 GAPS = [0.0, 0.0, 0.0, EPS, 0.05, 0.1, 0.3, 0.3, 0.7, 1.3]
 EXCS = ["ValueError", "KeyError", "CustomError", "CustomBase", "KeyboardInterrupt", "SystemExit",
-        "CancelledError", "GeneratorExit", "TimeoutError", "OSError", "RuntimeError", "FalsyError", "EmptyLenError"]
+        "CancelledError", "GeneratorExit", "TimeoutError", "OSError", "RuntimeError", "FalsyError", "EmptyLenError", "BadStrError"]
 VALUES: List[Any] = [None, 0, 1, -7, 3.5, "", "text", "ü∆", [1, 2, [3]], {"a": {"b": [1, None]}}, True, False,
                      [], {}, 2 ** 70, "x" * 300]
 
@@ -814,11 +814,17 @@ def gen_c05_spec(rng: random.Random, maxn: int = 16) -> Dict[str, Any]:
         beh = gen_beh(rng, ["ok", "ok", "raise", "noresult"], durs)
         if rng.random() < (0.15 if cfg["W"] is not None else 0.03):
             beh["dur"] = ["never"]
+        if rng.random() < 0.12 and beh["dur"] != ["never"]:
+            # a timeout label that fires; the function needs a while to wind down after the cancellation
+            beh["dur"] = [rng.choice([0.5, 1.0, 3.0])]
+            beh["cleanup"] = rng.choice([["y"], [0.3], [1.0], [2.5]])
         m = {"at": ats[i], "task": "t_async", "ackable": rng.random() < 0.7, "ack_kind": rng.choice(["sync", "async", "async", "awaitable", "task"]),
              "ack_raise": rng.random() < 0.08,
              "ack_lat": rng.choice([0, 0, "y", 0.05, 0.4]), "beh": beh,
              "kind": "valid" if rng.random() < 0.9 else rng.choice(["malformed", "unknown"]),
              "variant": rng.randint(0, 12)}
+        if beh.get("cleanup"):
+            m["timeout"] = rng.choice([0.05, 0.2])
         msgs.append(m)
     spec: Dict[str, Any] = {"cfg": cfg, "msgs": msgs, "backend": {"lat": rng.choice([0, 0, 0.05, 0.4])}}
     if rng.random() < 0.15:
@@ -970,7 +976,7 @@ def gen_c06_spec(rng: random.Random, depth: int, maxmsgs: int) -> Dict[str, Any]
                      "ack_kind": rng.choice(["sync", "async", "async", "task"]), "ack_lat": rng.choice([0, "y", 0.01, 0.05, 0.2]),
                      "labels": {"k": rng.randint(0, 9)}, "raw_labels": rng.random() < 0.2,
                      "partial_types": rng.random() < 0.1})
-    spec: Dict[str, Any] = {"cfg": {"A": rng.choice([None, 2, 4, 8]), "P": rng.choice([0, 2]),
+    spec: Dict[str, Any] = {"cfg": {"A": rng.choice([None, 2, 4, 8, 1]), "P": rng.choice([0, 2]),
                                     "ack": rng.choice(["when_saved", "when_executed", "when_received", "when_received"])},
                             "tasks": tasks, "deps": deps, "msgs": msgs, "end_stream": True, "overrides": overrides,
                             "backend": {"lat": rng.choice([0, 0.02])}}
@@ -978,6 +984,7 @@ def gen_c06_spec(rng: random.Random, depth: int, maxmsgs: int) -> Dict[str, Any]
         spec["mws"] = [{"pre_execute": {"async": True, "lat": rng.choice(["y", 0.02])}}]
     if rng.random() < 0.2:
         spec["via"] = "inmemory"  # same tasks through InMemoryBroker.kick (callback in a new asyncio task per kiq)
+        spec["backend"]["stock"] = True  # results also go into the bundled InmemoryResultBackend
         for m in msgs:
             m.pop("raw_labels", None)
         if rng.random() < 0.7:
@@ -1017,6 +1024,8 @@ class C06(WorkerCheck):
         cr.violations += v
         cr.counters["echoes_checked"] += checked
         for e in rr.trace:
+            if e["k"] == "foreign_result_visible":
+                cr.violations.append(Violation("result-visible-through-another-broker", f"the result stored for {e['tok']} is reported ready by the result backend of another, idle InMemoryBroker of the process"))
             if e["k"] == "gather":
                 cr.counters["gather_calls_checked"] += 1
                 if e["got"] != e["want"]:
@@ -1115,6 +1124,10 @@ def gen_c07_spec(rng: random.Random) -> Dict[str, Any]:
         msgs.append(m)
     spec: Dict[str, Any] = {"cfg": {"A": rng.choice([1, 2, 4, None]), "P": rng.choice([0, 1])}, "msgs": msgs,
                             "end_stream": True, "backend": {"lat": rng.choice([0, "y", 0.05]), "fail": fail}}
+    if rng.random() < 0.3:
+        # results also go into the bundled InmemoryResultBackend, with a small capacity
+        spec["backend"]["stock"] = True
+        spec["backend"]["stock_max"] = rng.choice([1, 2, 3, 100])
     if rng.random() < 0.25:
         # middlewares that annotate the message they are handed after the execution
         spec["mws"] = [{h: {"async": rng.random() < 0.5, "mutate_labels": True} for h in ("on_error", "post_execute", "post_save") if rng.random() < 0.7}]
@@ -1185,7 +1198,14 @@ def gen_c10_spec(rng: random.Random) -> Dict[str, Any]:
         if task == "t_sync":
             beh["dur"] = []
         sends.append({"tok": tok, "task": task, "beh": beh, "at": rng.choice([0, 0, 0.01])})
-        if rng.random() < 0.12:
+        if task == "t_async" and rng.random() < 0.15:
+            # the timeout label fires and the function takes a while to wind down
+            beh["dur"] = [rng.choice([0.3, 1.0])]
+            beh["cleanup"] = rng.choice([["y"], [0.05], [0.3]])
+            sends[-1]["labels"] = {"timeout": rng.choice([0.02, 0.1])}
+        if rng.random() < 0.08:
+            sends[-1]["bad_arg"] = True  # the message cannot be encoded: the send fails before the broker is reached
+        elif rng.random() < 0.12:
             sends[-1]["via_broker2"] = True  # task.kicker().with_broker(other): the other broker's hooks apply
         if rng.random() < 0.2:
             fail_backend.append(tok)
